@@ -95,7 +95,10 @@ func (l *enumValueLoader) commentEnd(lex lexeme.LexEvent) {
 		panic(errors.ErrLoader)
 	}
 
-	l.enumConstraint.SetComment(l.lastIdx, lex.Value().String())
+	// A comment in front of the first value belongs to no value.
+	if l.lastIdx < l.enumConstraint.Len() {
+		l.enumConstraint.SetComment(l.lastIdx, lex.Value().String())
+	}
 	l.stateFunc = l.annotationEnd
 }
 
